@@ -279,10 +279,42 @@ Record BInv (s : bstate) : Prop := mkBInv {
   bi_sep : forall t sl sl', b_held s t = Some sl -> In sl' (b_pool s) -> sl_buf sl' <> sl_buf sl
 }.
 
+(* everything beyond the length of a slice (held or pooled) is zero *)
+Record Clean (s : bstate) : Prop := mkClean {
+  cl_held : forall t sl j, b_held s t = Some sl -> sl_len sl <= j -> b_heap s (sl_buf sl) j = 0%N;
+  cl_pool : forall sl j, In sl (b_pool s) -> sl_len sl <= j -> b_heap s (sl_buf sl) j = 0%N
+}.
+
+Lemma rd_split h a b : rd h 0 (a + b) = rd h 0 a ++ rd h a b.
+Proof. unfold rd. rewrite seq_app, map_app. reflexivity. Qed.
+
+Lemma rd_zero h k : forall a, (forall j, a <= j -> h j = 0%N) -> rd h a k = repeat 0%N k.
+Proof.
+  unfold rd. induction k as [|k IH]; intros a H; cbn [seq map repeat]; [reflexivity|].
+  rewrite (H a) by lia. f_equal. apply IH. intros j Hj. apply H. lia.
+Qed.
+
+Lemma rd_grow h len n :
+  len <= n -> (forall j, len <= j -> h j = 0%N) ->
+  rd h 0 n = firstn n (rd h 0 len) ++ repeat 0%N (n - length (rd h 0 len)).
+Proof.
+  intros Hle Hz. rewrite rd_length.
+  rewrite firstn_all2 by (rewrite rd_length; exact Hle).
+  replace n with (len + (n - len)) at 1 by lia. rewrite rd_split. f_equal.
+  apply rd_zero. exact Hz.
+Qed.
+
+Lemma wr_beyond h off data j : off + length data <= j -> wr h off data j = h j.
+Proof.
+  intro H. unfold wr. assert (E : (j <? off + length data) = false) by (apply Nat.ltb_ge; lia).
+  rewrite E, andb_false_r. reflexivity.
+Qed.
+
 Definition vis_after (e : bevent) (t : nat) (old : list N) : list N :=
   match e with
   | BGet t' _ _ => if t' =? t then [] else old
   | BAppend t' d => if t' =? t then old ++ d else old
+  | BResize t' n => if t' =? t then firstn n old ++ repeat 0%N (n - length old) else old
   | BPut t' => if t' =? t then [] else old
   end.
 
@@ -290,10 +322,11 @@ Lemma appended_step t e es acc : appended t (e :: es) acc = appended t es (vis_a
 Proof. destruct e; reflexivity. Qed.
 
 Lemma bstep_ok mincap s e s' :
-  BInv s -> bstep mincap s e = Some s' ->
+  BInv s -> Clean s -> grows s e -> bstep mincap s e = Some s' ->
   BInv s' /\ forall t, visible s' t = vis_after e t (visible s t).
 Proof.
-  intros [Hlt Huq Hplt Hsep] Hst. destruct e as [t0 capacity c|t0 data|t0]; cbn [bstep] in Hst.
+  intros [Hlt Huq Hplt Hsep] [Hch Hcp] Hgr Hst.
+  destruct e as [t0 capacity c|t0 data|t0 n|t0]; cbn [bstep] in Hst.
   - (* BGet *)
     destruct (b_held s t0) eqn:Eh; [discriminate|].
     destruct (match c with Some b => find (has_buf b) (b_pool s) | None => None end) as [sl|] eqn:Ef;
@@ -386,6 +419,54 @@ Proof.
         -- rewrite upd_other by congruence. apply Nat.eqb_neq in Hne. rewrite Hne.
            destruct (b_held s t) as [sl1|] eqn:E1; [|reflexivity].
            rewrite upd_other; [reflexivity|]. apply Hlt in E1. lia.
+  - (* BResize *)
+    destruct (b_held s t0) as [sl|] eqn:Eh; [|discriminate].
+    cbn [grows] in Hgr. rewrite Eh in Hgr.
+    destruct (n <? sl_cap sl); inversion Hst; subst; clear Hst.
+    + split.
+      * constructor; cbn [b_heap b_pool b_next b_held].
+        -- intros t sl0. upd_cases t t0.
+           ++ intro E. inversion E; subst. cbn. eapply Hlt; exact Eh.
+           ++ apply Hlt.
+        -- intros t t' sl1 sl2. upd_cases t t0; upd_cases t' t0; try reflexivity.
+           ++ intros E1 E2 E3. inversion E1; subst. cbn in E3. eapply Huq; eassumption.
+           ++ intros E1 E2 E3. inversion E2; subst. cbn in E3. eapply Huq; eassumption.
+           ++ apply Huq.
+        -- exact Hplt.
+        -- intros t sl1 sl2. upd_cases t t0.
+           ++ intros E H0. inversion E; subst. cbn. eapply Hsep; eassumption.
+           ++ apply Hsep.
+      * intro t. unfold visible. cbn [b_heap b_held vis_after].
+        destruct (Nat.eq_dec t0 t) as [->|Hne].
+        -- rewrite upd_same, Nat.eqb_refl, Eh. cbn [sl_buf sl_len].
+           apply rd_grow; [exact Hgr|]. intros j Hj. eapply Hch; eassumption.
+        -- rewrite upd_other by congruence. apply Nat.eqb_neq in Hne. rewrite Hne. reflexivity.
+    + split.
+      * constructor; cbn [b_heap b_pool b_next b_held].
+        -- intros t sl0. upd_cases t t0.
+           ++ intro E. inversion E; subst. cbn. lia.
+           ++ intro E. apply Hlt in E. lia.
+        -- intros t t' sl1 sl2. upd_cases t t0; upd_cases t' t0; try reflexivity.
+           ++ intros E1 E2 E3. inversion E1; subst. cbn in E3. apply Hlt in E2. lia.
+           ++ intros E1 E2 E3. inversion E2; subst. cbn in E3. apply Hlt in E1. lia.
+           ++ apply Huq.
+        -- intros sl0 H0. apply Hplt in H0. lia.
+        -- intros t sl1 sl2. upd_cases t t0.
+           ++ intros E H0. inversion E; subst. cbn. apply Hplt in H0. lia.
+           ++ apply Hsep.
+      * intro t. unfold visible. cbn [b_heap b_held vis_after].
+        destruct (Nat.eq_dec t0 t) as [->|Hne].
+        -- rewrite upd_same, Nat.eqb_refl, Eh. cbn [sl_buf sl_len]. rewrite upd_same.
+           set (old := rd (b_heap s (sl_buf sl)) 0 (sl_len sl)).
+           assert (Hlo : length old = sl_len sl) by apply rd_length.
+           rewrite firstn_all2 by lia.
+           replace n with (length old + (n - length old)) at 1 by lia.
+           rewrite rd_split. f_equal.
+           ++ pose proof (rd_wr_append (fun _ => 0%N) 0 old) as E. cbn [Nat.add] in E. exact E.
+           ++ apply rd_zero. intros j Hj. rewrite wr_beyond by (cbn; lia). reflexivity.
+        -- rewrite upd_other by congruence. apply Nat.eqb_neq in Hne. rewrite Hne.
+           destruct (b_held s t) as [sl1|] eqn:E1; [|reflexivity].
+           rewrite upd_other; [reflexivity|]. apply Hlt in E1. lia.
   - (* BPut *)
     destruct (b_held s t0) as [sl|] eqn:Eh; [|discriminate].
     inversion Hst; subst; clear Hst. split.
@@ -403,25 +484,118 @@ Proof.
       * rewrite upd_other by congruence. apply Nat.eqb_neq in Hne. rewrite Hne. reflexivity.
 Qed.
 
+(* cleanliness is preserved as long as nobody shrinks *)
+Lemma bstep_clean mincap s e s' :
+  BInv s -> Clean s -> grows s e -> bstep mincap s e = Some s' -> Clean s'.
+Proof.
+  intros [Hlt Huq Hplt Hsep] [Hch Hcp] Hgr Hst.
+  destruct e as [t0 capacity c|t0 data|t0 n|t0]; cbn [bstep] in Hst.
+  - destruct (b_held s t0) eqn:Eh; [discriminate|].
+    destruct (match c with Some b => find (has_buf b) (b_pool s) | None => None end) as [sl|] eqn:Ef;
+      inversion Hst; subst; clear Hst.
+    + assert (Hin : In sl (b_pool s)).
+      { destruct c as [b|]; [|discriminate]. apply find_some in Ef. apply Ef. }
+      constructor; cbn [b_heap b_pool b_held].
+      * intros t sl1 j. upd_cases t t0.
+        -- intros E Hj. inversion E; subst. cbn [sl_buf]. rewrite upd_same. unfold zero_prefix.
+           destruct (j <? sl_len sl) eqn:Ej; [reflexivity|]. apply Nat.ltb_ge in Ej.
+           apply Hcp; assumption.
+        -- intros E Hj. rewrite upd_other; [eapply Hch; eassumption|].
+           intro E3. eapply Hsep; [exact E | exact Hin | symmetry; exact E3].
+      * intros sl1 j H0 Hj. apply filter_In in H0. destruct H0 as [H0 H1].
+        unfold has_buf in H1. apply negb_true_iff, Nat.eqb_neq in H1.
+        rewrite upd_other by exact H1. apply Hcp; assumption.
+    + constructor; cbn [b_heap b_pool b_held].
+      * intros t sl1 j. upd_cases t t0.
+        -- intros E Hj. inversion E; subst. cbn [sl_buf]. rewrite upd_same. reflexivity.
+        -- intros E Hj. rewrite upd_other; [eapply Hch; eassumption|]. apply Hlt in E. lia.
+      * intros sl1 j H0 Hj. rewrite upd_other; [apply Hcp; assumption|]. apply Hplt in H0. lia.
+  - destruct (b_held s t0) as [sl|] eqn:Eh; [|discriminate].
+    destruct (sl_len sl + length data <=? sl_cap sl); inversion Hst; subst; clear Hst.
+    + constructor; cbn [b_heap b_pool b_held].
+      * intros t sl1 j. upd_cases t t0.
+        -- intros E Hj. inversion E; subst. cbn [sl_buf sl_len] in *. rewrite upd_same.
+           rewrite wr_beyond by exact Hj. eapply Hch; [exact Eh | lia].
+        -- intros E Hj. rewrite upd_other; [eapply Hch; eassumption|].
+           intro E3. apply n. eapply Huq; [exact E | exact Eh | exact E3].
+      * intros sl1 j H0 Hj. rewrite upd_other; [apply Hcp; assumption|].
+        eapply Hsep; eassumption.
+    + constructor; cbn [b_heap b_pool b_held].
+      * intros t sl1 j. upd_cases t t0.
+        -- intros E Hj. inversion E; subst. cbn [sl_buf sl_len] in *. rewrite upd_same.
+           rewrite wr_beyond; [reflexivity|]. rewrite app_length, rd_length. cbn. exact Hj.
+        -- intros E Hj. rewrite upd_other; [eapply Hch; eassumption|]. apply Hlt in E. lia.
+      * intros sl1 j H0 Hj. rewrite upd_other; [apply Hcp; assumption|]. apply Hplt in H0. lia.
+  - destruct (b_held s t0) as [sl|] eqn:Eh; [|discriminate].
+    cbn [grows] in Hgr. rewrite Eh in Hgr.
+    destruct (n <? sl_cap sl); inversion Hst; subst; clear Hst.
+    + constructor; cbn [b_heap b_pool b_held].
+      * intros t sl1 j. upd_cases t t0.
+        -- intros E Hj. inversion E; subst. cbn [sl_buf sl_len] in *. eapply Hch; [exact Eh | lia].
+        -- intros E Hj. eapply Hch; eassumption.
+      * exact Hcp.
+    + constructor; cbn [b_heap b_pool b_held].
+      * intros t sl1 j. upd_cases t t0.
+        -- intros E Hj. inversion E; subst. cbn [sl_buf sl_len] in *. rewrite upd_same.
+           rewrite wr_beyond; [reflexivity|]. rewrite rd_length. cbn. lia.
+        -- intros E Hj. rewrite upd_other; [eapply Hch; eassumption|]. apply Hlt in E. lia.
+      * intros sl1 j H0 Hj. rewrite upd_other; [apply Hcp; assumption|]. apply Hplt in H0. lia.
+  - destruct (b_held s t0) as [sl|] eqn:Eh; [|discriminate].
+    inversion Hst; subst; clear Hst.
+    constructor; cbn [b_heap b_pool b_held].
+    + intros t sl1 j. upd_cases t t0; [discriminate|]. intros E Hj. eapply Hch; eassumption.
+    + intros sl1 j [H0|H0] Hj; [subst; eapply Hch; eassumption | apply Hcp; assumption].
+Qed.
+
 Lemma brun_gen mincap es : forall s s' (acc : nat -> list N),
-  BInv s -> (forall t, visible s t = acc t) -> brun mincap s es = Some s' ->
+  BInv s -> Clean s -> (forall t, visible s t = acc t) -> brun mincap s es = Some s' ->
+  grows_only mincap s es ->
   forall t, visible s' t = appended t es (acc t).
 Proof.
-  induction es as [|e es IH]; intros s s' acc I Hv H t; cbn [brun] in H.
+  induction es as [|e es IH]; intros s s' acc I C Hv H G t; cbn [brun] in H.
   - inversion H; subst. cbn. apply Hv.
-  - destruct (bstep mincap s e) as [s1|] eqn:E; [|discriminate].
-    destruct (bstep_ok mincap s e s1 I E) as [I1 Hv1].
+  - cbn [grows_only] in G. destruct G as [G1 G2].
+    destruct (bstep mincap s e) as [s1|] eqn:E; [|discriminate].
+    destruct (bstep_ok mincap s e s1 I C G1 E) as [I1 Hv1].
+    pose proof (bstep_clean mincap s e s1 I C G1 E) as C1.
     rewrite appended_step.
-    apply (IH s1 s' (fun t => vis_after e t (acc t)) I1); [|exact H].
+    apply (IH s1 s' (fun t => vis_after e t (acc t)) I1 C1); [|exact H|exact G2].
     intro t1. rewrite Hv1, Hv. reflexivity.
 Qed.
 
 Theorem byteslicepool_no_carry mincap : no_carry mincap.
 Proof.
-  intros h0 es s t H.
-  apply (brun_gen mincap es (binit h0) s (fun _ => [])); [| |exact H].
+  intros h0 es s t H G.
+  apply (brun_gen mincap es (binit h0) s (fun _ => [])); [| | |exact H|exact G].
+  - constructor; cbn; intros; try discriminate; contradiction.
   - constructor; cbn; intros; try discriminate; contradiction.
   - intro t1. reflexivity.
+Qed.
+
+(* without that restriction the statement is false OF THE TREE: a caller that shrinks its slice
+   with Resize and then Puts it leaves its bytes behind the length Get clears up to, and the next
+   caller's Resize shows them *)
+Theorem byteslicepool_shrink_put_refuted :
+  exists mincap es s, brun mincap (binit (fun _ _ => 0%N)) es = Some s /\
+                      visible s 1 = [0; 7; 7]%N /\ appended 1 es [] = [0; 0; 0]%N.
+Proof.
+  exists 4, [BGet 0 8 None; BAppend 0 [7; 7; 7]%N; BResize 0 1; BPut 0; BGet 1 0 (Some 0); BResize 1 3].
+  eexists. split; [vm_compute; reflexivity|]. split; vm_compute; reflexivity.
+Qed.
+
+(* a Put in the middle of a function that also has the deferred Put (an error path releasing the
+   buffer twice): after that operation two later operations hold the SAME buffer at once *)
+Theorem double_put_refuted :
+  exists (progs : opid -> list instr) es s b,
+    run (init_state progs) es = Some s /\
+    cur (ops s 1) = Some b /\ cur (ops s 2) = Some b.
+Proof.
+  exists (fun i => match i with
+                   | 0 => [IGet; IWrite 0 [1]%N; IProcess 1 1 (fun x => x); IPutKeep; IPut]
+                   | _ => [IGet; IWrite 0 [2]%N; IPut]
+                   end),
+         [(0, None); (0, None); (0, None); (0, None); (0, None); (1, Some 0); (2, Some 0)].
+  eexists. exists 0. split; [vm_compute; reflexivity|]. split; vm_compute; reflexivity.
 Qed.
 
 (* non-vacuity: three callers, two of them asking for the same name, interleaved lock by lock;
@@ -446,8 +620,14 @@ Proof. vm_compute. reflexivity. Qed.
 
 Example pool_run :
   match brun 4 (binit (fun _ _ => 7%N))
-             [BGet 0 2 None; BAppend 0 [1; 2]%N; BPut 0; BGet 1 0 (Some 0); BAppend 1 [9]%N] with
+             [BGet 0 2 None; BAppend 0 [1; 2]%N; BPut 0; BGet 1 0 (Some 0); BAppend 1 [9]%N;
+              BResize 1 3] with
   | Some s => Some (visible s 1, b_held s 1)
   | None => None
-  end = Some ([9]%N, Some (mkSl 0 1 4)).
+  end = Some ([9; 0; 0]%N, Some (mkSl 0 3 4)).
 Proof. vm_compute. reflexivity. Qed.
+
+Example pool_run_grows :
+  grows_only 4 (binit (fun _ _ => 7%N))
+             [BGet 0 2 None; BAppend 0 [1; 2]%N; BPut 0; BGet 1 0 (Some 0); BAppend 1 [9]%N; BResize 1 3].
+Proof. cbn. repeat split; lia. Qed.
